@@ -248,3 +248,19 @@ Qed.
 
 Lemma Forall2_impl : forall {A B} (R1 R2 : A -> B -> Prop) l l', (forall x y, R1 x y -> R2 x y) -> Forall2 R1 l l' -> Forall2 R2 l l'.
 Proof. intros A B R1 R2 l l' H. induction 1; constructor; auto. Qed.
+
+Lemma updf_Forall_first : forall {A} (P : A -> bool) (g : A -> A) (Q : A -> Prop) l x,
+  find P l = Some x -> Forall Q l -> Q (g x) -> Forall Q (upd_first P g l).
+Proof.
+  intros A P g Q l x. induction l; cbn; [discriminate|]. destruct (P a) eqn:E; intros Hf HF Hq; inversion HF; subst.
+  - inversion Hf; subst. constructor; assumption.
+  - constructor; [assumption | apply IHl; assumption].
+Qed.
+
+Lemma updf_map_first : forall {A B} (P : A -> bool) (g : A -> A) (h : A -> B) l x,
+  find P l = Some x -> h (g x) = h x -> map h (upd_first P g l) = map h l.
+Proof.
+  intros A B P g h l x. induction l; cbn; [discriminate|]. destruct (P a) eqn:E; intros Hf Hh; cbn; f_equal.
+  - inversion Hf; subst. assumption.
+  - apply IHl; assumption.
+Qed.
